@@ -358,8 +358,6 @@ func (m *zmon) judge(w zseqWitness, want, got, fresh []byte, mutated []string) {
 			fmt.Sprintf("%s(%q) of a chained authorizer answered neither Allow nor Deny (default %s)", q.Fn, q.Arg, def), w)
 		return
 	}
-	pol := zvNewRef(nil)
-	_ = pol
 	if fresh != nil && zvDiff(want, fresh) >= 0 {
 		// consul disagrees with the documented semantics even without any shared state
 		j := zvPickDiff(want, fresh)
